@@ -352,6 +352,21 @@ class _Idioms(ast.NodeTransformer):
             return ast.Dict(keys=[ast.Constant(k.arg) for k in n.keywords], values=[k.value for k in n.keywords])
         return n
 
+    def visit_IfExp(self, n: ast.IfExp):
+        self.generic_visit(n)
+        # `d[k] if k in d else V` -> `d.get(k, V)` (V an empty display / constant: eager evaluation is unobservable)
+        t = n.test
+        if isinstance(t, ast.Compare) and len(t.ops) == 1 and isinstance(t.ops[0], ast.In) and isinstance(n.body, ast.Subscript) \
+                and ast.dump(n.body.value) == ast.dump(t.comparators[0]) and ast.dump(n.body.slice) == ast.dump(t.left) \
+                and (isinstance(n.orelse, ast.Constant) or (isinstance(n.orelse, (ast.List, ast.Tuple, ast.Dict)) and not ast.dump(n.orelse).count("Name("))):
+            return ast.Call(func=ast.Attribute(value=n.body.value, attr="get", ctx=ast.Load()), args=[t.left, n.orelse], keywords=[])
+        # `True if c else False` -> c for comparisons / boolean operators (already bool), bool(c) otherwise
+        if isinstance(n.body, ast.Constant) and n.body.value is True and isinstance(n.orelse, ast.Constant) and n.orelse.value is False:
+            if isinstance(t, ast.Compare) or (isinstance(t, ast.UnaryOp) and isinstance(t.op, ast.Not)):
+                return t
+            return ast.Call(func=ast.Name(id="bool", ctx=ast.Load()), args=[t], keywords=[])
+        return n
+
     def visit_Attribute(self, n: ast.Attribute):
         self.generic_visit(n)
         # m.__getitem__ (as a callable) -> lambda _k: m[_k]
